@@ -356,7 +356,7 @@ theorem protocol_as_modelled :
       ["if ctx is not None:",
        "    keys = ctx.globals_keys - self.globals.keys()",
        "    if keys:",
-       "        return await self.make_module_async({k: ctx.parent[k] for k in keys})",
+       "        return await self.make_module_async({k: ctx._globals[k] for k in keys if k in ctx._globals})",
        "if self._module is None:",
        "    self._module = await self.make_module_async()",
        "return self._module"]
